@@ -35,6 +35,27 @@ struct StreamSink : public Spectra::verif::Sink
     }
 };
 
+// Operator adaptor that dwells a few microseconds between being handed its input vector and reading it: a solver-side buffer that
+// is (wrongly) shared between solver objects is then overwritten by another thread with near certainty instead of once in a million runs.
+template <typename In>
+struct SlowOp
+{
+    typedef typename In::Scalar Scalar;
+    const In& in;
+    explicit SlowOp(const In& i) : in(i) {}
+    Eigen::Index rows() const { return in.rows(); }
+    Eigen::Index cols() const { return in.cols(); }
+    void perform_op(const Scalar* x, Scalar* y) const
+    {
+        for (int i = 0; i < 8; i++)
+            std::this_thread::yield();
+        volatile unsigned spin = 3000;
+        while (spin)
+            spin = spin - 1;
+        in.perform_op(x, y);
+    }
+};
+
 struct JobResult
 {
     ll ev, res, nevents, info;
@@ -111,21 +132,25 @@ static JobResult run_private(const Job& j)
     }
     if (j.kind == 0)
     {
-        DenseSymMatProd<double> op(j.A);
-        return run_with_op<SymEigsSolver<DenseSymMatProd<double> > >(op, j);
+        DenseSymMatProd<double> in(j.A);
+        SlowOp<DenseSymMatProd<double> > op(in);
+        return run_with_op<SymEigsSolver<SlowOp<DenseSymMatProd<double> > > >(op, j);
     }
     if (j.kind == 1)
     {
-        DenseGenMatProd<double> op(j.A);
-        return run_with_op<GenEigsSolver<DenseGenMatProd<double> > >(op, j);
+        DenseGenMatProd<double> in(j.A);
+        SlowOp<DenseGenMatProd<double> > op(in);
+        return run_with_op<GenEigsSolver<SlowOp<DenseGenMatProd<double> > > >(op, j);
     }
     if (j.kind == 2)
     {
-        SparseSymMatProd<double> op(j.As);
-        return run_with_op<SymEigsSolver<SparseSymMatProd<double> > >(op, j);
+        SparseSymMatProd<double> in(j.As);
+        SlowOp<SparseSymMatProd<double> > op(in);
+        return run_with_op<SymEigsSolver<SlowOp<SparseSymMatProd<double> > > >(op, j);
     }
-    SparseGenMatProd<double> op(j.As);
-    return run_with_op<GenEigsSolver<SparseGenMatProd<double> > >(op, j);
+    SparseGenMatProd<double> in(j.As);
+    SlowOp<SparseGenMatProd<double> > op(in);
+    return run_with_op<GenEigsSolver<SlowOp<SparseGenMatProd<double> > > >(op, j);
 }
 
 static Job make_job(int kind, Rng& r, int variant)
@@ -254,13 +279,13 @@ void dispatch(const Desc& d)
                     else if (kind == 5)
                         con[t] = run_dav(*s2, jobs[t]);
                     else if (kind == 0)
-                        con[t] = run_with_op<SymEigsSolver<DenseSymMatProd<double> > >(*s0, jobs[t]);
+                        { SlowOp<DenseSymMatProd<double> > w(*s0); con[t] = run_with_op<SymEigsSolver<SlowOp<DenseSymMatProd<double> > > >(w, jobs[t]); }
                     else if (kind == 1)
-                        con[t] = run_with_op<GenEigsSolver<DenseGenMatProd<double> > >(*s1, jobs[t]);
+                        { SlowOp<DenseGenMatProd<double> > w(*s1); con[t] = run_with_op<GenEigsSolver<SlowOp<DenseGenMatProd<double> > > >(w, jobs[t]); }
                     else if (kind == 2)
-                        con[t] = run_with_op<SymEigsSolver<SparseSymMatProd<double> > >(*s2, jobs[t]);
+                        { SlowOp<SparseSymMatProd<double> > w(*s2); con[t] = run_with_op<SymEigsSolver<SlowOp<SparseSymMatProd<double> > > >(w, jobs[t]); }
                     else
-                        con[t] = run_with_op<GenEigsSolver<SparseGenMatProd<double> > >(*s3, jobs[t]);
+                        { SlowOp<SparseGenMatProd<double> > w(*s3); con[t] = run_with_op<GenEigsSolver<SlowOp<SparseGenMatProd<double> > > >(w, jobs[t]); }
                 }));
             while (ready.load() < T)
                 std::this_thread::yield();
